@@ -5,20 +5,21 @@ import (
 	"crypto/sha256"
 	"encoding/hex"
 	"encoding/json"
+	"fmt"
+	"math/big"
 	"os"
 	"os/exec"
 	"path/filepath"
-	"fmt"
-	"math/big"
 	"sort"
 	"strconv"
 	"strings"
+	"unicode/utf8"
 
 	channeltypes "github.com/cosmos/ibc-go/v8/modules/core/04-channel/types"
 
 	"cosmossdk.io/math"
-	dispatchertypes "github.com/noble-assets/orbiter/v2/types/component/dispatcher"
 	sdk "github.com/cosmos/cosmos-sdk/types"
+	dispatchertypes "github.com/noble-assets/orbiter/v2/types/component/dispatcher"
 
 	"github.com/noble-assets/orbiter/v2/types/core"
 
@@ -1036,7 +1037,6 @@ func (o *oracle) checkMoves(op world.Op, info pktInfo, obs world.OpObs, desc str
 	return fs
 }
 
-
 // ---------------------------------------------------------------------------------------------
 // the abstract state the harness keeps from observed outcomes (C08, C09, C12, C18)
 // ---------------------------------------------------------------------------------------------
@@ -1081,7 +1081,7 @@ func (o *oracle) mustSucceed(m world.Msg) bool {
 			n, err := strconv.ParseUint(c, 10, 32)
 			return err == nil && strconv.FormatUint(n, 10) == c
 		case 4:
-			return c != "" && len(c) <= 32 && !strings.Contains(c, "\x00")
+			return c != "" && len(c) <= 32 && !strings.Contains(c, "\x00") && utf8.ValidString(c)
 		case 1:
 			return channeltypes.IsValidChannelID(c) && len(c) <= 32
 		}
@@ -1452,7 +1452,6 @@ func (o *oracle) checkPrior(op world.Op, info pktInfo, obs world.OpObs, desc str
 	return fs
 }
 
-
 // checkOrder: C06 — the actions ran in payload order, each on the coin its predecessor left, and the
 // route got the coin the last action left.  Expected values are recomputed from the payload alone.
 func (o *oracle) checkOrder(op world.Op, info pktInfo, obs world.OpObs, desc string) []Failure {
@@ -1605,7 +1604,6 @@ func clipMemo(m string) string {
 	return m
 }
 
-
 // oddWire rewrites the packet data as another JSON text. The first kinds are other writings of the SAME ICS-20 data
 // (escaped characters in a value or a key, reordered keys, white space): every JSON decoder reads the same fields, the
 // packet stays what it was. The last kinds are NOT ICS-20 data for ibc-go's strict decoder (an extra key, a key in
@@ -1686,7 +1684,6 @@ func oddWire(r *rng.R, p *world.Packet) string {
 		return "wire-missing-sender"
 	}
 }
-
 
 // nearFullStats writes dispatched amounts a few thousand units below 2^256-1 for some of the routes the histories use.
 func (wr *worldRunner) nearFullStats(ctx sdk.Context, r *rng.R) {
